@@ -8,6 +8,8 @@ import Q1t.Proofs.BitPerm
 import Q1t.Proofs.RouteTerm
 import Q1t.Proofs.RouteCond
 import Q1t.Proofs.RouteExtra
+import Q1t.Proofs.EmbedUnitary
+import Q1t.Proofs.TermUnitary
 import Q1t.Proofs.UnitariesQ8
 import Q1t.Proofs.AmpComplex
 /-!
@@ -38,7 +40,9 @@ Auxiliary notions (all executable, definitions in `Q1t/Spec/Place.lean`):
 of row width `w`, i.e. `w` states at once); `blockMul m w M t v` — `(M ⊗ I_t)·v`;
 `opsMatrix matOf n ops acc` — the ordered product `E_k ⋯ E_1 · acc` of the embedded matrices of a list of
 placed gates; `Spec.mpow` — matrix power; `shotExpand`/`onSelected` — per-shot reading of a state.
-Proofs are in `Q1t/Proofs/Route*.lean`, `EmbedLift.lean`, `SubIndex.lean`, `BitPerm.lean`.
+Proofs are in `Q1t/Proofs/Route*.lean`, `EmbedLift.lean`, `EmbedUnitary.lean`, `TermUnitary.lean`,
+`SubIndex.lean`, `BitPerm.lean`; `Q1t/Proofs/RouteSim.lean` discharges the gate hypotheses (`GateSemOK.mat/vec`,
+`GateRuns`) of the simulator theorems of C02/C07 from the theorems below.
 -/
 namespace Q1t.Props.C04
 open Q1t Q1t.Gate Q1t.Spec Q1t.Proofs.Route
@@ -202,6 +206,23 @@ theorem loop_matrix_eq_pow (h : LawfulAmp α P) (l : String) (k : Nat) (nm : Str
     (body : OpList P) (hwf : WF (.Loop l k nm n body)) (hn64 : n < 64) :
     matrix (α := α) (.Loop l k nm n body) = mpow (matrix (α := α) (.Composite nm n body)) k :=
   matrix_loop_eq_pow h l k nm n body hwf hn64
+
+/-! ## (5b) unitarity (closes the two cases C05 leaves open) -/
+
+/-- The embedded matrix of a unitary on distinct in-range qubits is unitary
+(`LMat.Unitary P d M` := `M` is `d × d` and `M·Mᴴ = 1`, `Q1t/Proofs/LMatBridge.lean`). -/
+theorem embed_preserves_unitarity (h : LawfulAmp α P) (n : Nat) (bits : List Nat)
+    (hv : validBits n bits = true) (U : LMat α) (hU : LMat.Unitary P (2 ^ bits.length) U) :
+    LMat.Unitary P (2 ^ n) (embed n bits U) :=
+  embed_unitary h n bits hv U hU
+
+/-- EVERY well-formed gate term — including `Composite` and `Loop` at any nesting depth — has exactly
+the documented matrix (`Spec.specMatrix`: controlled = `1 ⊕ G`, `Kron` = `⊗`, composite = ordered product
+of the embedded documented factors, loop = power) and that matrix is unitary. -/
+theorem term_documented_unitary (h : LawfulAmp α P) (g : GateTerm P) (hwf : WF g)
+    (hword : WordOK g (nrBits g)) :
+    (matrix g : LMat α) = specMatrix g ∧ LMat.Unitary P (2 ^ nrBits g) (matrix g : LMat α) :=
+  good_of_wf h g hwf hword
 
 /-- Sanity of the reference semantics: on the full register in the natural order the embedded matrix is
 the matrix itself. -/
